@@ -72,7 +72,20 @@ func requireHeightConds(fn *ir.Func) []rhCond {
 		if n.Block == nil || n.Block.Cond != n.AST || len(n.Succs) != 2 {
 			continue
 		}
-		be, ok := ast.Unparen(n.AST.(ast.Expr)).(*ast.BinaryExpr)
+		// the comparison itself, or a flag that names its outcome once (`checkpointed := h >= require`) and is
+		// tested as `flag` / `!flag`
+		cond := ast.Unparen(n.AST.(ast.Expr))
+		succT, succF := n.Succs[0], n.Succs[1]
+		if u, isNot := cond.(*ast.UnaryExpr); isNot && u.Op == token.NOT {
+			cond = ast.Unparen(u.X)
+			succT, succF = succF, succT
+		}
+		if id, isID := cond.(*ast.Ident); isID {
+			if o := origin(fn, id); o != ast.Expr(id) {
+				cond = ast.Unparen(o)
+			}
+		}
+		be, ok := cond.(*ast.BinaryExpr)
 		if !ok {
 			continue
 		}
@@ -97,9 +110,9 @@ func requireHeightConds(fn *ir.Func) []rhCond {
 		}
 		switch op {
 		case token.GEQ:
-			out = append(out, rhCond{n, x, y, n.Succs[0], n.Succs[1]})
+			out = append(out, rhCond{n, x, y, succT, succF})
 		case token.LSS:
-			out = append(out, rhCond{n, x, y, n.Succs[1], n.Succs[0]})
+			out = append(out, rhCond{n, x, y, succF, succT})
 		}
 	}
 	return out
@@ -294,7 +307,9 @@ func c11r1(c *Ctx) {
 					// every ValidateBlock is dominated by this advance
 					dom := true
 					for _, vc := range worker.CallsTo(false, validateBlock) {
-						if !g.DominatedByNode(g.NodeContaining(vc.Pos()), g.NodeContaining(ab.Pos())) {
+						// (on feasible paths: the advance and the validation may sit under two tests of one flag)
+						an := g.NodeContaining(ab.Pos())
+						if !g.DominatedByNode(g.NodeContaining(vc.Pos()), an) && !worker.OnlyVia(g.NodeContaining(vc.Pos()), an.Succs) {
 							dom = false
 						}
 					}
@@ -322,15 +337,6 @@ func c11r1(c *Ctx) {
 				if !ok {
 					return
 				}
-				if len(rs.Results) != 1 {
-					good = false
-					return
-				}
-				cl, ok := ast.Unparen(rs.Results[0]).(*ast.CompositeLit)
-				if !ok {
-					good = false
-					return
-				}
 				// a field is empty on this path when it is absent, nil, or a variable known to be nil here
 				empty := func(e ast.Expr) bool {
 					if worker.IsNil(e) {
@@ -345,6 +351,28 @@ func c11r1(c *Ctx) {
 					}
 					call, isCall := ast.Unparen(e).(*ast.CallExpr)
 					return isCall && worker.P.AlwaysErr(worker.Callee(call), 0)
+				}
+				// the worker hands back (lists …, error) instead of a response record
+				if n := len(rs.Results); n > 1 && ir.IsErrorType(worker.TypeOf(rs.Results[n-1])) {
+					for _, r := range rs.Results[:n-1] {
+						if _, isSlice := worker.TypeOf(r).Underlying().(*types.Slice); isSlice && !empty(r) {
+							good = false
+						}
+					}
+					last := rs.Results[n-1]
+					if o := worker.ObjOf(last); !(o != nil && val(o) == 3) && !nonNil(last) {
+						good = false
+					}
+					return
+				}
+				if len(rs.Results) != 1 {
+					good = false
+					return
+				}
+				cl, ok := ast.Unparen(rs.Results[0]).(*ast.CompositeLit)
+				if !ok {
+					good = false
+					return
 				}
 				hasErr := false
 				for _, el := range cl.Elts {
